@@ -1462,7 +1462,7 @@ class Interp:
                 return ('call', 'Ident::new', args[:1])
             if last in ('call_site',) and len(segs) >= 2 and segs[-2] == 'Span':
                 return ('call', 'Span::call_site', [])
-            if len(segs) >= 2 and segs[-2] == 'Literal':
+            if len(segs) >= 2 and segs[-2] == 'Literal' and not p.startswith('naga::'):
                 return ('call', 'Literal::' + last, args)
             return ('call', p, args)
         callee = self.expr(f, env)
